@@ -75,7 +75,14 @@ class C15(Prop):
                 else:
                     steps.append(["load", rng.randrange(n_ops + 2) if rng.random() < 0.3 else None])
             steps.append(["load", None])
-            yield {"gen": "history/random", "steps": steps}
+            if rng.random() < 0.25:
+                # the same kind of history with the FASTA behind a symbolic link
+                yield {"gen": "history/random/symlink", "steps": steps, "symlink": True}
+            else:
+                yield {"gen": "history/random", "steps": steps}
+        for second in (1, 2):
+            yield {"gen": "history/symlink-rewrite", "symlink": True,
+                   "steps": [["rewrite", 0, True], ["tick"], ["load", None], ["rewrite", second, True], ["tick"], ["load", None]]}
         # races: every single pre-emption point of two processes, three initial cache states
         for pre in ([], [["load", None], ["tick"]], [["load", None], ["rewrite", 1, True]]):
             for k in range(0, 2 * n_ops + 4):
@@ -129,7 +136,7 @@ class C15(Prop):
         root = core.BUILD / self.pid / "fs"
         shutil.rmtree(root, ignore_errors=True)
         root.mkdir(parents=True)
-        sim = fsim.Sim(root)
+        sim = fsim.Sim(root, symlink=bool(case.get("symlink")))
         fsim.SIM = sim
         fsim.install()
         outcomes = []
